@@ -358,6 +358,7 @@ func runWire(t *testing.T, s *Scenario) (evs []wire.Event) {
 		if hung {
 			run, err = nil, errors.New("harness watchdog: the call did not return within 30 minutes of virtual time")
 		}
+		hung = hung || w.Spun // a busy loop that only the harness ended never returns on its own
 		ret := []any{"ok", err == nil && panicked == "" && !hung, "hung", hung, "panic", panicked, "err", errInfo(err), "has_result", run != nil, "t", w.NowUs()}
 		if s.Drain && !hung {
 			// keep the wire alive until the end of the listening window the parameters define: replies that were still on their way
